@@ -20,21 +20,22 @@ func (m *Machine) Run(t *rapid.T, weights map[string]int, minSteps, maxSteps int
 		return Commit
 	}
 	ops := map[string]func(){
-		"next":        func() { m.OpNext(t, fate()) },
-		"extend":      func() { m.OpExtend(t) },
-		"lookup":      func() { m.OpLookup(t) },
-		"derivePath":  func() { m.OpDerivePath(t) },
-		"markUsed":    func() { m.OpMarkUsed(t) },
-		"lock":        func() { m.OpLock(t) },
-		"unlock":      func() { m.OpUnlock(t) },
-		"changePass":  func() { m.OpChangePass(t) },
-		"newAccount":  func() { m.OpNewAccount(t, fate()) },
-		"newWOAcct":   func() { m.OpNewWatchOnlyAccount(t, fate()) },
-		"rename":      func() { m.OpRename(t) },
-		"importKey":   func() { m.OpImportKey(t) },
+		"next":         func() { m.OpNext(t, fate()) },
+		"extend":       func() { m.OpExtend(t) },
+		"lookup":       func() { m.OpLookup(t) },
+		"derivePath":   func() { m.OpDerivePath(t) },
+		"deriveBurst":  func() { m.OpDeriveBurst(t) },
+		"markUsed":     func() { m.OpMarkUsed(t) },
+		"lock":         func() { m.OpLock(t) },
+		"unlock":       func() { m.OpUnlock(t) },
+		"changePass":   func() { m.OpChangePass(t) },
+		"newAccount":   func() { m.OpNewAccount(t, fate()) },
+		"newWOAcct":    func() { m.OpNewWatchOnlyAccount(t, fate()) },
+		"rename":       func() { m.OpRename(t) },
+		"importKey":    func() { m.OpImportKey(t) },
 		"importScript": func() { m.OpImportScript(t) },
-		"setSynced":   func() { m.OpSetSyncedTo(t) },
-		"newScope":    func() { m.OpNewScope(t) },
+		"setSynced":    func() { m.OpSetSyncedTo(t) },
+		"newScope":     func() { m.OpNewScope(t) },
 		"restart": func() {
 			m.Case.Logf("restart")
 			m.Restart()
